@@ -44,7 +44,7 @@ theorem next_block_skips_leftovers (bs bs' post : List Byte) (hlen : bs.length <
 keeps reporting it. -/
 theorem next_block_at_end (post : List Byte) (hp : post.length < 2) (r : Reader) (h : Ahead r post) :
     ∃ r1, nextBlock r = (.ok false, r1) ∧ nextBlock r1 = (.ok false, r1) := by
-  obtain ⟨r1, he, hend, _⟩ := nextBlock_end h hp
+  obtain ⟨r1, he, hend⟩ := nextBlock_end h hp
   exact ⟨r1, he, nextBlock_ended hend⟩
 
 /-- **Fast loading refines LD-BYTES.** For every tape position with a block `bs` ahead, every CPU
@@ -96,7 +96,7 @@ the trap changes neither the CPU nor memory and does not return, every time it i
 theorem no_block_no_effect (post : List Byte) (hp : post.length < 2) (c : Cpu) (m : Mem) (t : Tap)
     (h : Ahead t.rd post) :
     ∃ t', fastLoadTap true c m t = (none, c, m, t') ∧ fastLoadTap true c m t' = (none, c, m, t') := by
-  obtain ⟨r1, he, hend, _⟩ := nextBlock_end h hp
+  obtain ⟨r1, he, hend⟩ := nextBlock_end h hp
   refine ⟨{ t with rd := r1 }, ?_, ?_⟩
   · simp [fastLoadTap, he]
   · simp [fastLoadTap, nextBlock_ended hend]
@@ -117,7 +117,7 @@ untouched — but AF and AF' have been exchanged … -/
 theorem no_block_no_effect_partial (post : List Byte) (hp : post.length < 2) (c : Cpu) (m : Mem)
     (t : Tap) (h : Ahead t.rd post) :
     ∃ t', fastLoadTap false c m t = (none, c.swapAf, m, t') := by
-  obtain ⟨r1, he, _, _⟩ := nextBlock_end h hp
+  obtain ⟨r1, he, _⟩ := nextBlock_end h hp
   exact ⟨{ t with rd := r1 }, by simp [fastLoadTap, he]⟩
 
 /-- … and therefore `no_block_no_effect` is **false** for the code as found: on an empty tape a
@@ -200,7 +200,7 @@ theorem request_sequence_refines (cs : List Cpu) (hcs : ∀ c ∈ cs, c.prologOk
     | nil =>
       have hnb : ∃ t', fastLoadTap true c m t = (none, c, m, t') ∧ t'.rd.tapeEnded = true := by
         rcases hpos with ha | ⟨_, hend⟩
-        · obtain ⟨r1, he, hend, _⟩ := nextBlock_end (by simpa [Spec.encode] using ha) ht
+        · obtain ⟨r1, he, hend⟩ := nextBlock_end (by simpa [Spec.encode] using ha) ht
           exact ⟨{ t with rd := r1 }, by simp [fastLoadTap, he], hend⟩
         · exact ⟨t, by simp [fastLoadTap, nextBlock_ended hend], hend⟩
       obtain ⟨t', he, hend⟩ := hnb
